@@ -412,19 +412,20 @@ PROPS["C03"] = _tx("C03", ["C03_receiver_invariant", "C03_receiver_initial", "C0
                            "C03_sender_invariant", "C03_sender_initial", "C03_sender_never_stuck",
                            "C03_timer_limit_in_bounded_time", "C03_receiver_timers_invariant", "C03_receiver_timers_initial",
                            "C03_receiver_no_spin", "C03_sender_timers_invariant", "C03_sender_timers_initial",
-                           "C03_sender_no_spin"], ["recv", "send"],
+                           "C03_sender_no_spin", "C03_sender_send_arm_progress", "C03_receiver_send_arm_progress"], ["recv", "send"],
     "Proof (PARTIAL): for every reachable state of both machines an active transaction is never stuck - the send arm is "
     "enabled or a timer with a finite deadline runs (this is the invariant whose failure was the pinned defect: a cancelled "
     "sender whose EOF had been acknowledged waited forever); every running timer reaches its limit after exactly max_count "
     "periods and the limit's handler cancels/abandons (C17); no spinning - under invariants kept by every operation (all timer "
     "periods positive, ACK timer stopped while data is received, sender NAK timer never started) the timeout arm run at any "
     "instant leaves the transaction inactive, or with something to send, or with its next deadline strictly in the future "
-    "(the repaired NAK-timer spin violated exactly this). Lock-step correspondence including idle drives (the loop left "
+    "(the repaired NAK-timer spin violated exactly this); the send arm never spins either - whenever has_pdu_to_send enables it, "
+    "one run of send_pdu emits at least one PDU/indication or (sender) consumes one queued retransmission request. Lock-step correspondence including idle drives (the loop left "
     "alone after any prefix of an exchange: send while enabled, else sleep to the next deadline and run the timeout arm) "
     "compared step by step with the model, and an oracle on the real code: the drive must reach Terminated, never get stuck, "
     "and do so within (3*max_count+3)*max timeout + NAK delay of silence.",
-    " NOT mechanised: the closed-form bound for the whole run (ranking over the limit rounds of the successive phases) and the "
-    "finiteness of the send queue drained between two timeouts; the "
+    " NOT mechanised: the closed-form bound for the whole run (ranking over the limit rounds of the successive phases; the per-run "
+    "progress of the send arm IS a theorem, the bound on how many send runs fit between two timeouts is not); the "
     "daemon serving other transactions meanwhile (C11); transport back-pressure (a link that never accepts a PDU).")
 
 _LINK_RULE = (" Component `link`: one real SendTransaction and one real RecvTransaction joined by a scripted link on the paused "
